@@ -54,7 +54,7 @@ func init() {
 		Level: "fault_enumeration",
 		Rule: "key lengths 0..64 against each of the three AES-CBC descriptors (only the negotiated size accepted); for the accepted size: key patterns × every plaintext length 0..80 (thorough: 0..4096) × content patterns × every answer vector of the scripted random source (full/zero/0xFF/short/error per read) with <= 2 (quick) / 3 (thorough) deviations, i.e. failure and short read at every read index; " +
 			"explicit-state search over one cipher object with ops Encrypt(p_i), Decrypt(c_j), Decrypt(bad_k) to closure, and two objects with the same key interleaved; Decrypt negatives: all lengths 0..96 and, per block-aligned length, the last block built with the reference cipher so that the recovered pad-length octet takes all 256 values. " +
-			"Oracle: Decrypt(Encrypt(p)) = p; |c| = 16+16k with n < 16k <= n+256; reference CBC decryption of c[16:] under c[:16] gives p‖pad‖(16k−n−1); IV is made of octets the source served, IVs pairwise distinct across calls and objects on the non-repeating stream; >= 16 octets consumed per call; source failure → error and no ciphertext; bad ciphertext → error, never a panic; every op on a used object behaves as on a fresh object. distinct_nontrivial = distinct (key, plaintext, environment) encryptions verified against the reference",
+			"Oracle: Decrypt(Encrypt(p)) = p; |c| = 16+16k with n < 16k <= n+256; reference CBC decryption of c[16:] under c[:16] gives p‖pad‖(16k−n−1); IV is made of octets the source served, IVs pairwise distinct across calls and objects on the non-repeating stream; >= 16 octets of the source consumed per encryption (cumulatively: a prefetching pool is allowed); source failure → error and no ciphertext; bad ciphertext → error, never a panic; every op on a used object behaves as on a fresh object. distinct_nontrivial = distinct (key, plaintext, environment) encryptions verified against the reference",
 		Assumptions: []string{"the AES block function is a shared trusted primitive; CBC chaining, padding and IV handling are independent"},
 		Run:         runC10,
 		Replay: func(c *engine.Ctx, raw json.RawMessage) {
@@ -65,6 +65,8 @@ func init() {
 				c10KeySize(c, cs.Desc, cs.KeyLen)
 			case "encrypt":
 				c10Encrypt(c, cs, engine.NewReplayRun(cs.Env))
+			case "encrypt-seq":
+				c10EncryptSeq(c, cs, engine.NewReplayRun(cs.Env))
 			case "negative":
 				c10Negative(c, cs, engine.UnHex(cs.CT))
 			case "history":
@@ -107,6 +109,22 @@ func runC10(c *engine.Ctx) {
 					c.Count("env_executions", st.Executions)
 				}
 			}
+		}
+	}
+	// long call sequences on one object: 12 encryptions, failure / short read / degenerate content at every
+	// read index, continuing after a failed call (a refill path that fails must not hand out old IVs)
+	for d := 0; d < 3; d++ {
+		for _, n := range []int{0, 1, 15, 16, 40} {
+			if !c.Mine() {
+				continue
+			}
+			base := c10Case{K: "encrypt-seq", Desc: d, KeyLen: ref.EncrKeyLens[d], N: n, Pat: 2*3 + 2}
+			b := 1
+			if c.Thorough() {
+				b = 2
+			}
+			st := engine.Explore(b, 0, func(r *engine.Run) { c10EncryptSeq(c, base, r) }, func(r *engine.Run) {})
+			c.Count("env_executions(sequences)", st.Executions)
 		}
 	}
 	// negatives
@@ -268,8 +286,12 @@ func c10Encrypt(c *engine.Ctx, base c10Case, r *engine.Run) {
 			c.Violate("not-textbook-cbc", fmt.Sprintf("plaintext %d octets: reference decryption gives %x… with final octet %d (want %d)", n, trunc(pt, 24), pt[k16-1], k16-n-1), mk())
 			return
 		}
-		if consumed[i] < 16 {
-			c.Violate("iv-not-drawn-per-call", fmt.Sprintf("call %d consumed %d octets of the random source", i+1, consumed[i]), mk())
+		total := 0
+		for _, x := range consumed[:i+1] {
+			total += x
+		}
+		if total < 16*(i+1) {
+			c.Violate("iv-not-drawn-per-call", fmt.Sprintf("%d encryptions consumed only %d octets of the random source", i+1, total), mk())
 			return
 		}
 		if !bytes.Contains(served, ct[:16]) {
@@ -424,6 +446,20 @@ func c10Apply(o *c10Obj, d, oi int) string {
 	if err != nil {
 		return "error"
 	}
+	if op.kind == 0 {
+		// behavioural outcome of an encryption: which IV octets were used is the implementation's business
+		// (a prefetching pool is legitimate); what counts is a well-formed ciphertext of the plaintext
+		kl := ref.EncrKeyLens[d]
+		if len(out) < 32 || (len(out)-16)%16 != 0 {
+			return fmt.Sprintf("malformed ciphertext of %d octets", len(out))
+		}
+		pt := ref.CBCDecrypt(c10Key(kl, 2), out[:16], out[16:])
+		n := len(op.data)
+		if !bytes.Equal(pt[:n], op.data) || int(pt[len(pt)-1]) != len(pt)-n-1 {
+			return fmt.Sprintf("ciphertext of %d octets that does not decrypt to the plaintext", len(out))
+		}
+		return fmt.Sprintf("ciphertext %d octets, decrypts to the plaintext", len(out))
+	}
 	return fmt.Sprintf("%x", out)
 }
 
@@ -437,4 +473,94 @@ func c10History(c *engine.Ctx, d int, hist []int, oi int) {
 	if got != want {
 		c.Violate("history-dependent/"+c10Ops(d)[oi].name, fmt.Sprintf("op %s after %v: %s vs fresh %s", c10Ops(d)[oi].name, hist, trs(got), trs(want)), c10Case{K: "history", Desc: d, Hist: hist, Op: oi})
 	}
+}
+
+// c10EncryptSeq: 12 encryptions on one cipher object under the scripted source, continuing after errors.
+func c10EncryptSeq(c *engine.Ctx, base c10Case, r *engine.Run) {
+	c.Evals++
+	kl := ref.EncrKeyLens[base.Desc]
+	key := c10Key(kl, base.Pat/3)
+	p := c10Plain(base.N, base.Pat%3)
+	cr, err := encr.StrToType(univ.EncrName(kl)).NewCrypto(key)
+	mk := func() c10Case { x := base; x.Env = r.Choices(); return x }
+	if err != nil {
+		return
+	}
+	seam := engine.NewSeam(r, []int{engine.AnsA, engine.AnsZero, engine.AnsShort, engine.AnsErr})
+	seam.Horizon = 200
+	restore := engine.Install(seam)
+	type res struct {
+		ct     []byte
+		err    error
+		failed bool
+	}
+	var rs []res
+	pi := engine.Catch(func() {
+		for i := 0; i < 12; i++ {
+			fb := 0
+			for _, rec := range seam.Log {
+				if rec.Answer == engine.AnsErr {
+					fb++
+				}
+			}
+			ct, e := cr.Encrypt(append([]byte(nil), p...))
+			fa := 0
+			for _, rec := range seam.Log {
+				if rec.Answer == engine.AnsErr {
+					fa++
+				}
+			}
+			rs = append(rs, res{ct, e, fa > fb})
+		}
+	})
+	restore()
+	envs := strings.Join(seam.Answers(), ",")
+	if pi != nil {
+		c.Violate(pi.Sig(), fmt.Sprintf("Encrypt sequence under [%s] panics: %s", envs, pi.Value), mk())
+		return
+	}
+	served := seam.Served()
+	zeroServed := false
+	for _, rec := range seam.Log {
+		zeroServed = zeroServed || rec.Answer == engine.AnsZero
+	}
+	ok := 0
+	var ivs [][]byte
+	for i, x := range rs {
+		if x.failed && x.err == nil {
+			c.Violate("source-failure-swallowed/sequence", fmt.Sprintf("call %d of 12 saw a failing read (answers [%s]) and still returned a ciphertext", i+1, envs), mk())
+			return
+		}
+		if x.err != nil {
+			if !x.failed {
+				c.Violate("spurious-error/sequence", fmt.Sprintf("call %d of 12 fails although none of its reads failed (answers [%s]): %v", i+1, envs, x.err), mk())
+				return
+			}
+			continue
+		}
+		ok++
+		if len(x.ct) < 32 || !bytes.Contains(served, x.ct[:16]) {
+			c.Violate("iv-not-from-source/sequence", fmt.Sprintf("call %d: IV is not made of octets the source served", i+1), mk())
+			return
+		}
+		pt := ref.CBCDecrypt(key, x.ct[:16], x.ct[16:])
+		if !bytes.Equal(pt[:len(p)], p) {
+			c.Violate("not-textbook-cbc/sequence", fmt.Sprintf("call %d", i+1), mk())
+			return
+		}
+		if !zeroServed {
+			for j, iv := range ivs {
+				if bytes.Equal(iv, x.ct[:16]) {
+					c.Violate("iv-repeats/sequence", fmt.Sprintf("calls %d and %d on one object use the same IV (answers [%s])", j+1, i+1, envs), mk())
+					return
+				}
+			}
+		}
+		ivs = append(ivs, x.ct[:16])
+	}
+	if seam.Consumed() < 16*ok {
+		c.Violate("iv-not-drawn-per-call/sequence", fmt.Sprintf("%d successful encryptions consumed only %d octets of the random source", ok, seam.Consumed()), mk())
+		return
+	}
+	c.DistinctS(fmt.Sprint("seq", base.Desc, base.N, envs))
 }
